@@ -326,7 +326,7 @@ def mark_unknown_helpers(ctx):
     files = anchor_files(ctx.prop)
     new = set()
     for fn in ctx.fb.all_fns():
-        if fn.file in files and not fn.lambda_ and fn.has_cfg() and fn.kind == "method" and fn_base_name(fn) not in known:
+        if fn.file in files and not fn.lambda_ and fn.has_cfg() and fn.kind in ("method", "function") and fn_base_name(fn) not in known:
             fn.unknown_helper = True
             new.add(fn_base_name(fn))
     if new:
